@@ -261,8 +261,10 @@ def _run_class(algo, data, rank, n_iter_max, opts, seed, tol, init, callback):
         kw.setdefault("n_samples", 20)
     if any(k not in params for k in kw):
         return None
-    if "return_errors" in params:
-        kw["return_errors"] = True
+    if "return_errors" in params and (seed // 4) % 2:
+        kw["return_errors"] = True      # every other class run leaves the estimator's own default
+    else:
+        ROUTES["class-default-return"] = ROUTES.get("class-default-return", 0) + 1
     est = Cls(rank, **kw)
     out = est.fit_transform(data["slices"] if algo == "parafac2" else data["X"])
     if type(out) is tuple and len(out) == 2 and isinstance(out[1], list):
